@@ -411,6 +411,11 @@ class NetSim:
                 self.reader_over.append((it, n))
         if n > self.max_readers:
             self.max_readers = n
+        if self._retain:
+            r = retained_bytes(c)
+            if r > self.max_retained:
+                self.max_retained = r
+                self.max_retained_at = (it, self.loop.vt)
         ops = self._iter_ops.get(it)
         if ops:
             for op in ops:
@@ -510,6 +515,9 @@ class NetSim:
         self._iter_faults = []
         self._undone = []
         self._seen_tasks = 0
+        self._retain = bool((self.plan.get("knobs") or {}).get("retain"))
+        self.max_retained = 0
+        self.max_retained_at = None
         loop.step_hooks.append(self._step)
         loop.set_exception_handler(self._on_unhandled)
         import serial_asyncio
@@ -603,11 +611,43 @@ class NetSim:
         o.tasks = [(t.get_name(), hs) for t, hs in self.loop.task_log]
         o.task_done = self.task_done
         o.client = self.client
+        o.max_retained = self.max_retained
+        o.max_retained_at = self.max_retained_at
         h = hashlib.sha256()
         for e in self.trace:
             h.update(repr(e).encode())
         o.digest = h.hexdigest()
         return o
+
+
+def retained_bytes(client):
+    """Total length of bytes-like objects reachable from the client's instance attributes (depth <= 2 through
+    list / tuple / deque / dict); stream reader/writer, queue, decoder, encoder and tasks are excluded by type."""
+    import collections
+    if client is None:
+        return 0
+    skip = (asyncio.StreamReader, asyncio.StreamWriter, asyncio.Queue, asyncio.Future, asyncio.Lock)
+    total = 0
+
+    def walk(x, depth):
+        nonlocal total
+        if isinstance(x, (bytes, bytearray, memoryview)):
+            total += len(x)
+        elif depth < 2 and isinstance(x, (list, tuple, collections.deque)):
+            for y in x:
+                walk(y, depth + 1)
+        elif depth < 2 and isinstance(x, dict):
+            for y in x.values():
+                walk(y, depth + 1)
+    try:
+        attrs = list(vars(client).values())
+    except TypeError:
+        return 0
+    for a in attrs:
+        if isinstance(a, skip) or type(a).__module__.startswith("nmea2000"):
+            continue
+        walk(a, 0)
+    return total
 
 
 class _Counter(dict):
